@@ -29,8 +29,13 @@ impl io::Write for Cap {
         if buf.is_empty() {
             return Ok(0);
         }
-        let mut n = if self.accept.is_empty() { buf.len() } else { self.accept[self.calls % self.accept.len()].clamp(1, buf.len()) };
+        let want = if self.accept.is_empty() { buf.len() } else { self.accept[self.calls % self.accept.len()] };
         self.calls += 1;
+        if want == 0 {
+            // the call is interrupted: nothing accepted, the caller (write_all) repeats it
+            return Err(io::Error::new(io::ErrorKind::Interrupted, "interrupted"));
+        }
+        let mut n = want.min(buf.len());
         if let Some(limit) = self.fail_after {
             if self.total >= limit {
                 return Err(io::Error::new(io::ErrorKind::Other, "sink failure"));
@@ -371,7 +376,7 @@ fn check_case(case: &Value, rec: &RecSpec, idx: usize) -> Option<Value> {
     let huge = toks.contains(&"<HUGE>");
     let expects_error = toks.contains(&"<ERR>");
     // the sink accepts a prefix per write call for every fourth case
-    let accept = if idx % 4 == 3 { vec![1, 5, 2] } else { vec![] };
+    let accept = if idx % 4 == 3 { vec![1, 0, 5, 2] } else { vec![] }; // 0: the call is interrupted and repeated
     match run_pattern(&pattern, rec, accept, huge, idx % 3 == 1) {
         Outcome::PanicNew(p) => Some(json!({"what": "PatternEncoder::new panicked", "error": p})),
         Outcome::PanicEncode(p) => Some(json!({"what": "encode panicked", "error": p})),
